@@ -411,6 +411,51 @@ func init() {
 		})
 	}
 
+	// no leak: a predicate or filter evaluated first must not change how later errors are reported
+	c08exec := oracles["C08"]
+	oracles["C08"] = func(o *oracleRun) J {
+		if v := c08exec(o); v != nil {
+			return v
+		}
+		if o.replay != nil {
+			return nil
+		}
+		r := rand.New(rand.NewSource(o.seed + 17))
+		steps := []string{".a", ".b", ".*", "[*]", "[0]", "[5]", ".abs()", ".double()", ".size()", ".keyvalue()", ".c"}
+		preds := []string{"(1 == 1)", "exists(@)", "!(1 == 2)", "(1 == \"a\") is unknown", "(1 == 1 && exists(@))"}
+		g := &gen{r: r, p: profiles["accessor"]}
+		g.keys = []string{"a", "b", "c"}
+		for i := 0; i < o.n; i++ {
+			var S string
+			for j := 0; j < 1+r.Intn(3); j++ {
+				S += steps[r.Intn(len(steps))]
+			}
+			mode := "strict "
+			if r.Intn(3) == 0 {
+				mode = ""
+			}
+			doc := g.value(2, r.Intn(2))
+			if _, isArr := doc.([]any); isArr {
+				continue // a filter unwraps an array target in lax mode
+			}
+			plain := mustInput(mode+"$"+S, doc, nil)
+			with := mustInput(mode+"$ ? ("+preds[r.Intn(len(preds))]+")"+S, doc, nil)
+			if plain == nil || with == nil {
+				continue
+			}
+			for _, entry := range []string{"query", "exists"} {
+				a, b := plain.run(entry, false, nil), with.run(entry, false, nil)
+				if a.panic_ != nil || b.panic_ != nil {
+					continue
+				}
+				if a.class != b.class || (a.err == nil && (a.b != b.b || !sameItems(a.items, b.items))) {
+					return violation(with, "an always-true filter changes how the following steps report", J{"entry": entry, "without_filter": showCall(a), "with_filter": showCall(b)})
+				}
+			}
+		}
+		return nil
+	}
+
 	// ---- C20 ------------------------------------------------------------------------
 	oracles["C20"] = func(o *oracleRun) J {
 		return execOracle(o, []string{"general", "predicate", "accessor", "method"}, func(in *inputs) J {
